@@ -1,7 +1,9 @@
 package scen
 
 import (
+	"fmt"
 	"math/rand"
+	"sync"
 
 	"github.com/Trendyol/go-dcp/couchbase"
 	"github.com/Trendyol/go-dcp/helpers"
@@ -153,6 +155,7 @@ func runStreamProp(c *Ctx, id string) {
 	}
 	if id == "C16" {
 		runC16Gauges(c)
+		runC16Windows(c)
 	}
 	if id == "C12" {
 		runReopenRetriesUnderRebalance(c)
@@ -164,8 +167,19 @@ func runStreamProp(c *Ctx, id string) {
 func runC14Keys(c *Ctx) {
 	var kc, mc []gal.Term
 	var kr, mr []string
-	groups := []string{"g", "group", "", "a:b", "a:checkpoint:1", "x.y", ".", "grp-1_2", "ü", "a\x00b", ":checkpoint:", "checkpoint", "9", "a.b.c"}
-	for i := 0; i < c.Pick(300, 5000); i++ {
+	groups := []string{"g", "group", "", "a:b", "a:checkpoint:1", "x.y", ".", "grp-1_2", "ü", "a\x00b", ":checkpoint:", "checkpoint", "9", "a.b.c", "group1", "my-group-7"}
+	// the keys are computed first and held, as the save and the load of the Couchbase backend hold the keys of all their
+	// vBuckets at once (one goroutine per vBucket); they are read only after all of them exist
+	type held struct {
+		g      string
+		vb     uint16
+		id     []byte
+		ok     bool
+		atCall string
+	}
+	n := c.Pick(300, 5000)
+	hs := make([]held, n)
+	for i := 0; i < n; i++ {
 		g := groups[c.Rng.Intn(len(groups))]
 		if c.Rng.Intn(3) == 0 {
 			b := make([]byte, c.Rng.Intn(6))
@@ -178,7 +192,32 @@ func runC14Keys(c *Ctx) {
 		if c.Rng.Intn(10) == 0 {
 			vb = uint16(c.Rng.Intn(65536))
 		}
-		id, ok := couchbase.VerifCheckpointID(vb, g)
+		hs[i] = held{g: g, vb: vb}
+	}
+	// a third of them from concurrent goroutines released together
+	var wg sync.WaitGroup
+	start := make(chan struct{})
+	for i := range hs {
+		if i%3 == 0 {
+			wg.Add(1)
+			go func(i int) {
+				defer wg.Done()
+				<-start
+				hs[i].id, hs[i].ok = couchbase.VerifCheckpointID(hs[i].vb, hs[i].g)
+				hs[i].atCall = string(hs[i].id)
+			}(i)
+		}
+	}
+	close(start)
+	wg.Wait()
+	for i := range hs {
+		if i%3 != 0 {
+			hs[i].id, hs[i].ok = couchbase.VerifCheckpointID(hs[i].vb, hs[i].g)
+			hs[i].atCall = string(hs[i].id)
+		}
+	}
+	for i := range hs {
+		g, vb, id, ok := hs[i].g, hs[i].vb, hs[i].id, hs[i].ok
 		obs := gal.None()
 		meta := false
 		if ok {
@@ -187,18 +226,28 @@ func runC14Keys(c *Ctx) {
 			if !meta {
 				c.Violate("key-not-reserved", "checkpoint key "+string(id)+" is not under a reserved prefix", map[string]interface{}{"group": g, "vb": vb})
 			}
+			if string(id) != hs[i].atCall {
+				c.Violate("key-changed-after-return", fmt.Sprintf("the checkpoint key of (%q, %d) was %q when it was returned and reads %q once the keys of other vBuckets have been computed", g, vb, hs[i].atCall, string(id)), map[string]interface{}{"group": g, "vb": vb})
+			}
 		}
 		c.Eval("key:"+g+"/"+string(rune(vb)), true)
 		c.Count("checkpoint-key")
 		kc = append(kc, gal.Tuple(gal.Bytes([]byte(g)), gal.N(uint64(vb)), obs, gal.Bool(meta)))
-		kr = append(kr, J(map[string]interface{}{"kind": "checkpoint-key", "group": g, "vb": vb, "key": string(id), "ok": ok}))
+		kr = append(kr, J(map[string]interface{}{"kind": "checkpoint-key", "group": g, "vb": vb, "key": string(id), "ok": ok, "held_with": "the keys of all other cases of this run"}))
 	}
-	// injectivity monitor on a grid
+	// injectivity monitor on a grid; the keys of one group are held together before they are compared
 	seen := map[string][2]interface{}{}
 	for _, g := range groups {
+		var ids [][]byte
 		for vb := 0; vb < 40; vb++ {
 			id, ok := couchbase.VerifCheckpointID(uint16(vb), g)
 			if !ok {
+				id = nil
+			}
+			ids = append(ids, id)
+		}
+		for vb, id := range ids {
+			if id == nil {
 				continue
 			}
 			if p, dup := seen[string(id)]; dup && (p[0] != g || p[1] != vb) {
